@@ -267,7 +267,8 @@ func (e *Exec) GenGo(r *Rng, v reflect.Value, m Mode, depth int) {
 // PlanMode steers generation of Terraform values.
 type PlanMode struct {
 	NullPct, UnknownPct int
-	OneofExclusive      bool // unused by the type-directed generator (no descriptor knowledge here)
+	// KeepObjects: objects, lists and maps are always known and non-null; NullPct / UnknownPct apply to leaves only
+	KeepObjects bool
 }
 
 var durPool = []string{"0s", "1ns", "-1ns", "5m0s", "1h2m3s", "-2562047h47m16.854775808s", "2562047h47m16.854775807s"}
@@ -276,11 +277,16 @@ var durPool = []string{"0s", "1ns", "-1ns", "5m0s", "1h2m3s", "-2562047h47m16.85
 func GenTfValue(r *Rng, t attr.Type, m PlanMode, depth int) tftypes.Value {
 	ctx := e0ctx
 	tt := t.TerraformType(ctx)
-	if r.P(m.UnknownPct) {
-		return tftypes.NewValue(tt, tftypes.UnknownValue)
-	}
-	if r.P(m.NullPct) {
-		return tftypes.NewValue(tt, nil)
+	_, isObj := t.(types.ObjectType)
+	_, isList := t.(types.ListType)
+	_, isMap := t.(types.MapType)
+	if !(m.KeepObjects && (isObj || isList || isMap)) {
+		if r.P(m.UnknownPct) {
+			return tftypes.NewValue(tt, tftypes.UnknownValue)
+		}
+		if r.P(m.NullPct) {
+			return tftypes.NewValue(tt, nil)
+		}
 	}
 	switch x := t.(type) {
 	case types.ObjectType:
@@ -641,6 +647,26 @@ func GenOps(e *Exec, args []string) {
 			emit(J{"op": "copyFrom", "type": t.Name, "tf": EncodeTf(malform(r, o, 15)), "prior": "zero", "tag": "from-malformed"})
 			emit(J{"op": "copyFrom", "type": t.Name, "tf": EncodeTf(malform(r, o, 40)), "prior": genGo(Mode{ZeroPct: 30}), "tag": "from-malformed"})
 		}
+		// C07 / C05: oneof matrices – at every object level that holds a oneof group: each branch (or none) known,
+		// the others null or unknown, against an empty and a fully populated prior struct; and all leaves null under
+		// known objects against a populated prior
+		if base, ok := genPlan(PlanMode{}); ok {
+			n := 0
+			for _, v := range oneofMatrix(r, base, groups) {
+				enc := EncodeTf(v)
+				emit(J{"op": "copyFrom", "type": t.Name, "tf": enc, "prior": "zero", "tag": "from", "grp": "matrix"})
+				emit(J{"op": "copyFrom", "type": t.Name, "tf": enc, "prior": genGo(Mode{ZeroPct: 0}), "tag": "from", "grp": "matrix"})
+				n++
+				if n >= 10*scale {
+					break
+				}
+			}
+		}
+		for i := 0; i < 2*scale; i++ {
+			if o, ok := genPlan(PlanMode{NullPct: 70 + 30*(i%2), UnknownPct: 30 * (i % 2), KeepObjects: true}); ok {
+				emit(J{"op": "copyFrom", "type": t.Name, "tf": EncodeTf(o), "prior": genGo(Mode{ZeroPct: 0}), "tag": "from", "grp": "leafnull"})
+			}
+		}
 		// C06 (CopyTo half): attribute types removed at any level
 		for i := 0; i < 3*scale; i++ {
 			dt := dropTypes(r, ot, 10+20*(i%3)).(types.ObjectType)
@@ -727,4 +753,123 @@ func sortedAttrKeys(m map[string]attr.Value) []string {
 	}
 	sort.Strings(ks)
 	return ks
+}
+
+// nullOf returns the null (or unknown) value of an attribute's type.
+func stateOf(t attr.Type, unknown bool) attr.Value {
+	var raw interface{}
+	if unknown {
+		raw = tftypes.UnknownValue
+	}
+	z, err := t.ValueFromTerraform(e0ctx, tftypes.NewValue(t.TerraformType(e0ctx), raw))
+	if err != nil {
+		return nil
+	}
+	return z
+}
+
+// oneofMatrix derives from a fully known plan the variants in which, at one object level that holds attributes of a
+// oneof group, exactly one branch (or none) is known and the others are null or unknown.
+func oneofMatrix(r *Rng, base types.Object, groups [][]string) []types.Object {
+	var out []types.Object
+	type site struct {
+		path  []string // attribute names / "#i" list indices / "@k" map keys leading to the object
+		group []string
+	}
+	var sites []site
+	var walk func(v attr.Value, path []string)
+	walk = func(v attr.Value, path []string) {
+		switch x := v.(type) {
+		case types.Object:
+			for _, g := range groups {
+				var present []string
+				for _, n := range g {
+					if _, ok := x.Attrs[n]; ok {
+						present = append(present, n)
+					}
+				}
+				if len(present) >= 1 && len(present) == len(g) {
+					sites = append(sites, site{append([]string{}, path...), present})
+				}
+			}
+			for _, k := range sortedAttrKeys(x.Attrs) {
+				walk(x.Attrs[k], append(path, k))
+			}
+		case types.List:
+			for i, e := range x.Elems {
+				if i > 0 {
+					break
+				}
+				walk(e, append(path, "#0"))
+			}
+		case types.Map:
+			ks := sortedAttrKeys(x.Elems)
+			if len(ks) > 0 {
+				walk(x.Elems[ks[0]], append(path, "@"+ks[0]))
+			}
+		}
+	}
+	walk(base, nil)
+	var rebuild func(v attr.Value, path []string, f func(types.Object) types.Object) attr.Value
+	rebuild = func(v attr.Value, path []string, f func(types.Object) types.Object) attr.Value {
+		if len(path) == 0 {
+			return f(v.(types.Object))
+		}
+		switch x := v.(type) {
+		case types.Object:
+			n := map[string]attr.Value{}
+			for k, y := range x.Attrs {
+				n[k] = y
+			}
+			n[path[0]] = rebuild(x.Attrs[path[0]], path[1:], f)
+			x.Attrs = n
+			return x
+		case types.List:
+			n := append([]attr.Value{}, x.Elems...)
+			n[0] = rebuild(x.Elems[0], path[1:], f)
+			x.Elems = n
+			return x
+		case types.Map:
+			n := map[string]attr.Value{}
+			for k, y := range x.Elems {
+				n[k] = y
+			}
+			k := path[0][1:]
+			n[k] = rebuild(x.Elems[k], path[1:], f)
+			x.Elems = n
+			return x
+		}
+		return v
+	}
+	for _, s := range sites {
+		choices := append([]string{""}, s.group...)
+		for ci, keep := range choices {
+			unknown := (ci+len(out))%2 == 1
+			s := s
+			keep := keep
+			v := rebuild(base, s.path, func(o types.Object) types.Object {
+				n := map[string]attr.Value{}
+				for k, y := range o.Attrs {
+					n[k] = y
+				}
+				for _, name := range s.group {
+					if name == keep {
+						continue
+					}
+					if z := stateOf(o.AttrTypes[name], unknown); z != nil {
+						n[name] = z
+					}
+				}
+				o.Attrs = n
+				return o
+			})
+			out = append(out, v.(types.Object))
+		}
+	}
+	// shuffle deterministically so that a cap does not always cut the same sites
+	for i := len(out) - 1; i > 0; i-- {
+		j := r.Intn(i + 1)
+		out[i], out[j] = out[j], out[i]
+	}
+	return out
 }
